@@ -202,6 +202,29 @@ theorem sign_bytes_from_fields (m : CoseSign) (k j : Nat) (hk : k + 2 ≤ Cbor.r
       ProtectedHeader.erase m'.protected_ = ProtectedHeader.erase m.protected_ ∧ Header.erase m'.unprotected = Header.erase m.unprotected ∧
       m'.payload = m.payload ∧ eraseSigs m'.signatures = eraseSigs m.signatures := sign_built_bytes m k j hk hj hp hu hs hpn hun hsn hsl hpl
 
+theorem encrypt_bytes_from_fields (m : CoseEncrypt) (k j : Nat) (hk : k + 2 ≤ Cbor.recursionLimit) (hj : j + 2 ≤ Cbor.recursionLimit)
+    (hp : ProtectedHeader.WF maxNest m.protected_) (hu : Header.WF maxNest m.unprotected) (hr : rcpsWF m.recipients)
+    (hpn : ProtectedHeader.NF m.protected_) (hun : Header.NF k m.unprotected) (hrn : rcpsNF j m.recipients)
+    (hrl : m.recipients.length < 2 ^ 64) (hct : ∀ b, m.ciphertext = some b → b.length < 2 ^ 64) :
+    ∃ bs m', toVec CoseEncrypt.toValue m = .ok bs ∧ fromSlice CoseEncrypt.fromValue bs = .ok m' ∧
+      ProtectedHeader.erase m'.protected_ = ProtectedHeader.erase m.protected_ ∧ Header.erase m'.unprotected = Header.erase m.unprotected ∧
+      m'.ciphertext = m.ciphertext ∧ eraseRcps m'.recipients = eraseRcps m.recipients :=
+  encrypt_built_bytes m k j hk hj hp hu hr hpn hun hrn hrl hct
+
+theorem mac_bytes_from_fields (m : CoseMac) (k j : Nat) (hk : k + 2 ≤ Cbor.recursionLimit) (hj : j + 2 ≤ Cbor.recursionLimit)
+    (hp : ProtectedHeader.WF maxNest m.protected_) (hu : Header.WF maxNest m.unprotected) (hr : rcpsWF m.recipients)
+    (hpn : ProtectedHeader.NF m.protected_) (hun : Header.NF k m.unprotected) (hrn : rcpsNF j m.recipients)
+    (hrl : m.recipients.length < 2 ^ 64) (hpl : ∀ b, m.payload = some b → b.length < 2 ^ 64) (htg : m.tag.length < 2 ^ 64) :
+    ∃ bs m', toVec CoseMac.toValue m = .ok bs ∧ fromSlice CoseMac.fromValue bs = .ok m' ∧
+      ProtectedHeader.erase m'.protected_ = ProtectedHeader.erase m.protected_ ∧ Header.erase m'.unprotected = Header.erase m.unprotected ∧
+      m'.payload = m.payload ∧ m'.tag = m.tag ∧ eraseRcps m'.recipients = eraseRcps m.recipients :=
+  mac_built_bytes m k j hk hj hp hu hr hpn hun hrn hrl hpl htg
+
+/-- non-vacuity: a recipient holding one nested recipient meets the field-level conditions with budget 4. -/
+example : CoseRecipient.NF 4 (.mk (.mk none Header.default) Header.default (some [1]) [.mk (.mk none Header.default) Header.default none []]) := by
+  have t : ∀ k, TypedN k none [] none [] [] [] := fun k => ⟨by simp, by simp, by simp, by simp⟩
+  simp [CoseRecipient.NF, rcpsNF, ProtectedHeader.NF, Header.NF, Header.default, Header.isEmpty, RestN, csNF, t]
+
 theorem claims_bytes_from_fields (c : ClaimsSet) (k : Nat) (hk : k + 1 ≤ Cbor.recursionLimit) (hw : c.WF) (hn : ClaimsSet.NF k c) :
     ∃ bs, toVec ClaimsSet.toValue c = .ok bs ∧ fromSlice ClaimsSet.fromValue bs = .ok c := claims_built_bytes c k hk hw hn
 
@@ -269,6 +292,8 @@ theorem tie_header_is_empty : Coset.Gen.headerFields = Coset.Pinned.headerFields
 #print axioms mac0_bytes_from_fields
 #print axioms encrypt0_bytes_from_fields
 #print axioms sign_bytes_from_fields
+#print axioms encrypt_bytes_from_fields
+#print axioms mac_bytes_from_fields
 #print axioms claims_bytes_from_fields
 
 end Coset.Props.C11
